@@ -380,6 +380,29 @@ def all_plans_of(results, skip=None, probe_kinds=None, with_solver=True):
                 yield i, r["inst"], probe_readback(r["inst"], pb), "probe %s: %s (objective %s)" % (pb["kind"], pb["desc"], pb["obj"])
 
 
+def scale_world(w, k):
+    """the same world with every time quantity multiplied by k (a different time grain: disc, plan_ahead, now, runtimes,
+    deadlines, releases, placements); flagged `units`, so that the adapter expresses the multiples of 1000 in ms — the
+    strategies, deadlines and placements of one world then carry DIFFERENT units (raw magnitudes are not comparable)"""
+    w = json.loads(json.dumps(w))
+    w["now"] *= k
+    w["cfg"]["disc"] *= k
+    if w["cfg"]["plan_ahead"] != -1:
+        w["cfg"]["plan_ahead"] *= k
+    for g in w["graphs"]:
+        for t in g["tasks"]:
+            for s_ in t["strats"]:
+                s_[0] *= k
+            t["deadline"] *= k
+            if t["release"] >= 0:
+                t["release"] *= k
+            for f in ("start", "sched_at", "remaining"):
+                if "place" in t and f in t["place"]:
+                    t["place"][f] *= k
+    w["units"] = k
+    return w
+
+
 def generate(ctx, n_gurobi, n_cplex, tiny=False, allow_running=True, force=None):
     worlds = []
     seen = set()
@@ -389,6 +412,8 @@ def generate(ctx, n_gurobi, n_cplex, tiny=False, allow_running=True, force=None)
         while k < n and tries < 50 * n + 100:
             tries += 1
             w = gen_world(ctx.rng, flavour, tiny=tiny, allow_running=allow_running, force=force)
+            if tries % 6 == 5:
+                w = scale_world(w, [100, 250, 500, 500][(tries // 6) % 4])
             key = world_key(w)
             if key in seen:
                 continue
